@@ -435,12 +435,23 @@ def run(ctx):
         if n >= 4:
             combos = list(combos); combos = rnd.sample(combos, min(len(combos), 4000 if quick else 30000))
         for combo in combos:
-            lst = [mk(*variants[i]) for i in combo]
-            sel = MultimapResolver.find_duplicates(lst, list(range(len(lst))))
-            cases.append(("(%s, %s)" % (clist([variants[i] for i in combo], ckey), czs(sel)), {"records(read,chr,start,end,isoforms,region)": [variants[i] for i in combo], "selected": list(sel)}))
-    ctx.rule("find_duplicates with BasicReadAssignment.__eq__: every list of <= 3 (sampled: 4) records drawn from 10 records that differ from a base record in exactly one field (read, chromosome, start, end, isoform list / order, processing region); "
+            # assignment_indices as the callers pass them: all positions, and (select_best_assignment hands over the positions of ONE priority
+            # class) proper sub-lists / permuted sub-lists, where the position inside assignment_indices differs from the assignment index
+            index_lists = [list(range(n))]
+            if n == 2: index_lists += [[1, 0], [1]]
+            elif n == 3: index_lists += [[1, 2], [0, 2], [2, 1], [2, 0, 1]]
+            elif n >= 4:
+                sub = rnd.sample(range(n), rnd.randint(2, n - 1)); index_lists += [sorted(sub), list(range(1, n)), rnd.sample(range(n), n)]
+            for idx in index_lists:
+                lst = [mk(*variants[i]) for i in combo]
+                try: sel = list(MultimapResolver.find_duplicates(lst, list(idx)))
+                except Exception as e: sel = [-1]
+                cases.append(("((%s, %s), %s)" % (clist([variants[i] for i in combo], ckey), czs(idx), czs(sel)),
+                              {"records(read,chr,start,end,isoforms,region)": [variants[i] for i in combo], "assignment_indices": list(idx), "selected": list(sel)}))
+    ctx.rule("find_duplicates with BasicReadAssignment.__eq__: every list of <= 3 (sampled: 4) records drawn from 10 records that differ from a base record in exactly one field (read, chromosome, start, end, isoform list / order, processing region), "
+             "with assignment_indices = all positions AND proper / permuted sub-lists of the positions (position in assignment_indices != assignment index, as when select_best_assignment passes one priority class); "
              "non-trivial = a duplicate was removed")
-    mism, viol = ctx.corr("find_duplicates", PRE_DD, cases, shard=1500, nontrivial=lambda o: len(o["selected"]) < len(o["records(read,chr,start,end,isoforms,region)"]))
+    mism, viol = ctx.corr("find_duplicates", PRE_DD, cases, shard=1500, nontrivial=lambda o: len(o["selected"]) < len(o["assignment_indices"]))
     ctx.corr_report("find_duplicates", mism, viol, keyfn=lambda o: "dedup:identical-records-survive")
 
     # ---- 6. pipeline: accounting_ok
@@ -459,6 +470,9 @@ def split_clusters(file):
 
 
 # ------------------------------------------------------------------------------------------------ pipeline level
+MAPQ_LADDER = (2, 3, 4, 5, 19, 20, 21, 60)
+
+
 def make_world(rnd, seed):
     """chromosomes with the coverage shapes of the property's quantifier; returns (chroms, records, genes)"""
     chroms = []; recs = []; genes = []
@@ -495,6 +509,23 @@ def make_world(rnd, seed):
     for i in range(3): recs.append(dict(name="unmapped%d" % i, chr=None, flag=4))
     for i in range(5): read(c, "f%d" % i, 30000 + 13 * i, 800, flag=256, mapq=0)      # secondary alignment of f0..f4 at another locus
     genes.append(("chrF", "GF", "+", [(3001, 4200)]))
+    # chrD: a read whose primary alignment spans a sub-region border (two exons 40 kb apart, coverage valley in the intron: processed in both sub-regions,
+    # two identical records that find_duplicates must reduce to one) and that has a secondary alignment in an upstream gene-free locus, so that the
+    # per-read list holds a record of a worse class BEFORE the two copies (the copies' indices differ from their positions in the index list)
+    c = chrom("chrD", 70000)
+    read(c, "dspan", 2000, 0, flag=256, mapq=0, cigar=[(0, 300), (3, 200), (0, 300), (3, 200), (0, 300)])
+    read(c, "dspan", 10000, 0, cigar=[(0, 500), (3, 39500), (0, 500)])
+    read(c, "dspan2", 10000, 0, cigar=[(0, 500), (3, 39500), (0, 500)])          # control: only the two copies
+    for i, (s0, ln) in enumerate(((10020, 460), (50010, 480), (10100, 400))): read(c, "dshort%d" % i, s0, ln)
+    genes.append(("chrD", "GD", "+", [(10001, 10500), (50001, 50500)]))
+    # chrQ: MAPQ exactly at / one below / one above the values used with an explicit --min_mapq (3 and 20), inside an annotated gene (exact matches of
+    # its isoform) and in gene-free loci (three-exon and unspliced alignments)
+    c = chrom("chrQ", 40000)
+    for i, q in enumerate(MAPQ_LADDER):
+        read(c, "qgene_%d" % q, 2000 + i, 0, mapq=q, cigar=[(0, 300 - i), (3, 400), (0, 300 - i)])
+        read(c, "qfree3_%d" % q, 10000 + i, 0, mapq=q, cigar=[(0, 400 - i), (3, 600), (0, 300), (3, 700), (0, 400 - i)])
+        read(c, "qfree1_%d" % q, 20000 + 3 * i, 700, mapq=q)
+    genes.append(("chrQ", "GQ", "+", [(2001, 2300), (2701, 3000)]))
     # chrR: random clusters that the real constants split
     c = chrom("chrR", 400000); pos = 2000
     for k, f in enumerate(structured_real(rnd, 4, depth_choices=(3, 4, 40))):
@@ -534,13 +565,19 @@ def pipeline_accounting(ctx, quick):
         inp = []
         with pysam.AlignmentFile(bam, "rb") as bf:
             for a in bf.fetch(until_eof=True): inp.append((intern(a.query_name), (a.flag, a.reference_id, a.mapping_quality)))
-        configs = [(hm, gdb) for hm in (False, True) for gdb in (False, True)]
+        # (high_memory, annotation, explicit --min_mapq or None)
+        configs = [(hm, gdb, None) for hm in (False, True) for gdb in (False, True)] + [(False, True, 20), (True, False, 3)]
         cases = []
-        for hm, gdb in configs:
-            out = os.path.join(d, "out_%d%d" % (hm, gdb))
+        for hm, gdb, mq in configs:
+            out = os.path.join(d, "out_%d%d_%s" % (hm, gdb, mq))
             args = ["--reference", os.path.join(d, "genome.fa"), "--bam", bam, "--data_type", "nanopore", "--threads", "2", "-p", "OUT"]
             if hm: args.append("--high_memory")
             if gdb: args += ["--genedb", gtf, "--complete_genedb"]
+            if mq is not None: args += ["--min_mapq", str(mq)]
+            # the documented MAPQ cut-offs as the source applies them: --min_mapq N drops MAPQ < N everywhere (so a primary alignment with MAPQ >= N and
+            # above the two conditional cut-offs MUST be reported); --inconsistent_mapq_cutoff (default 5) only concerns assignments to annotated isoforms,
+            # i.e. it never applies in a run without --genedb (0 there); --simple_alignments_mapq_cutoff (default 1) applies to <= 2-exon alignments in gene-free regions
+            cut = (False, mq or 0, 5 if gdb else 0, 1)
             rc, log = P.run_isoquant(out, args); ctx.cov["pipeline_runs"] += 1
             replay = {"pipeline": "generated BAM (VERIF_SEED=%d): chrP single-bin pile-up, chrT valley on the last bin, chrL >32 kb locus with bridging and tail reads, chrF filtered categories, chrR random" % ctx.seed,
                       "args": [a.replace(d, "<dir>") for a in args]}
@@ -566,26 +603,32 @@ def pipeline_accounting(ctx, quick):
             if not m:
                 ctx.violation(None, "alignment statistics missing from isoquant.log", replay); continue
             for k, v in re.findall(r"- INFO - (\w+): (\d+)", m.group(1)): st[k] = int(v)
-            term = "{| ac_input := %s; ac_cut := (false, 0, 5, 1); ac_bed := %s; ac_tsv := %s; ac_bed_lines := %s; ac_tsv_lines := %s; ac_log := (%d, %d, %d, %d) |}" % (
-                clist(inp, lambda r: "(%s, %s)" % (cz(r[0]), cbrec(r[1]))), czs(bed_ids), copt(tsv_ids, czs), czs(bed_lines), czs(tsv_lines),
+            term = "{| ac_input := %s; ac_cut := (%s, %d, %d, %d); ac_bed := %s; ac_tsv := %s; ac_bed_lines := %s; ac_tsv_lines := %s; ac_log := (%d, %d, %d, %d) |}" % (
+                clist(inp, lambda r: "(%s, %s)" % (cz(r[0]), cbrec(r[1]))), cbool(cut[0]), cut[1], cut[2], cut[3], czs(bed_ids), copt(tsv_ids, czs), czs(bed_lines), czs(tsv_lines),
                 st["primary"], st["secondary"], st["supplementary"], st["unaligned"])
             # a readable diagnosis for the replay file
-            must = {n for n, (fl, ref, mq) in inp if ref != -1 and not fl & 2048 and not fl & 256 and mq >= 5}
-            rev = {v: k for k, v in names.items()}
+            must = {n for n, (fl, ref, q) in inp if ref != -1 and not fl & 2048 and not fl & 256 and q >= max(cut[1:])}
+            rev = {v: k for k, v in names.items()}; cnt_lines = collections.Counter(bed_lines + tsv_lines)
             diag = dict(replay, input_records=len(inp), reads_that_must_be_reported=len(must), bed_distinct=len(set(bed_ids)), bed_lines=len(bed_ids),
                         missing_from_bed=sorted(rev[x] for x in must - set(bed_ids))[:12], n_missing=len(must - set(bed_ids)),
                         missing_from_tsv=sorted(rev[x] for x in must - set(tsv_ids))[:12] if tsv_ids is not None else None,
-                        duplicated_bed_lines=len(bed_lines) - len(set(bed_lines)), duplicated_tsv_lines=len(tsv_lines) - len(set(tsv_lines)), logged=st, high_memory=hm, genedb=gdb)
+                        duplicated_bed_lines=len(bed_lines) - len(set(bed_lines)), duplicated_tsv_lines=len(tsv_lines) - len(set(tsv_lines)), duplicated_bed_records=[l[1:].rstrip("\n") for l, k in lines.items() if l[0] == "B" and cnt_lines[k] > 1][:4],
+                        duplicated_tsv_records=[l[1:].rstrip("\n") for l, k in lines.items() if l[0] == "T" and cnt_lines[k] > 1][:4],
+                        logged=st, high_memory=hm, genedb=gdb, min_mapq=mq, cut_offs_of_the_specification=cut)
             cases.append((term, diag))
         def acc_key(o):
             miss = o["missing_from_bed"] + (o["missing_from_tsv"] or [])
+            if o["duplicated_bed_lines"] or o["duplicated_tsv_lines"]: return "dedup:identical-records-survive"
+            if any(x.startswith("q") for x in miss): return "filter:mapq-cutoff"
             if any(x.startswith("pile") for x in miss): return "split:no-region"
-            if any(x in ("ttail", "ltail2", "ltail3") or x.startswith("r") for x in miss):
+            if any(x in ("ttail", "ltail2", "ltail3") or re.match(r"r\d", x) for x in miss):
                 return "inmemory:start-in-last-bin" if o["high_memory"] else "split:last-bin-without-region"
             return None
-        ctx.rule("pipeline: one generated BAM (%d records on 5 chromosomes: 1100 reads of 80 bp inside one bin + controls; two 33-kb loci at depth 300 joined by one read with coverage falling to 1%% on the last bin where a 50-bp read starts; "
+        ctx.rule("pipeline: one generated BAM (%d records on 7 chromosomes: 1100 reads of 80 bp inside one bin + controls; two 33-kb loci at depth 300 joined by one read with coverage falling to 1%% on the last bin where a 50-bp read starts; "
                  "a 70-kb locus of 15 reads split by length with reads bridging two genes at the valley and 3..90-bp reads at the tail; secondary / supplementary / unmapped / MAPQ 0 / MAPQ 3 records and a read with a secondary alignment "
-                 "at a second locus; random clusters) through isoquant.py in default and --high_memory mode, with and without --genedb; Coq evaluates accounting_ok on the BED / TSV / log of every run" % len(inp))
+                 "at a second locus; a read whose primary alignment spans a sub-region border and whose secondary alignment lies in an upstream locus; alignments with MAPQ 2,3,4,5,19,20,21,60 inside an annotated gene and in gene-free loci; random clusters) "
+                 "through isoquant.py in default and --high_memory mode, with and without --genedb, plus --min_mapq 20 (annotated, default memory) and --min_mapq 3 (no annotation, --high_memory); Coq evaluates accounting_ok on the BED / TSV / log "
+                 "of every run with the cut-offs of that run: (no_secondary, min_mapq as given, inconsistent_mapq_cutoff = 5 with annotation and not applicable without, simple_alignments_mapq_cutoff = 1)" % len(inp))
         mism, viol = ctx.corr("pipeline accounting_ok", PRE + "Definition check (c:acc_case) := true.\nDefinition prop := accounting_ok.\n", cases, shard=1, timeout=900)
         ctx.corr_report("pipeline accounting_ok", mism, viol, keyfn=acc_key, what="accounting_ok (read ids of BED/TSV vs. input, identical lines, logged statistics)")
         ctx.assume.append("pysam reading of the input BAM (flags, reference ids, MAPQ) for the accounting specification; parsers of BED / TSV / log lines in the harness")
